@@ -175,7 +175,9 @@ func runC08(p *core.Prog, r *core.Report, tier string) {
 				started := false
 				core.EachInstr(E, func(in ssa.Instruction) {
 					if gg, ok := in.(*ssa.Go); ok {
-						if mc, ok := gg.Call.Value.(*ssa.MakeClosure); ok && mc.Fn == cl {
+						mc, isMC := gg.Call.Value.(*ssa.MakeClosure)
+						fv, isFn := gg.Call.Value.(*ssa.Function)
+						if (isMC && mc.Fn == cl) || (isFn && fv == cl) {
 							started = true
 							// the cond passed is the one waited on
 							for _, a := range gg.Call.Args {
